@@ -199,18 +199,20 @@ def coreEnabled {α τ : Type} (s : St α τ) : Event α → Bool
   | .complete i _ => s.returned.isNone && s.running.contains i
   | _ => false
 
-/-- Termination measure: strictly decreased by every enabled `select!` branch (until the return). -/
-def measure {α τ : Type} (s : St α τ) : Nat :=
+/-- Termination budgetMeasure: strictly decreased by every enabled `select!` branch (until the return). -/
+def budgetMeasure {α τ : Type} (s : St α τ) : Nat :=
   match s.returned with
   | some _ => 0
   | none => 1 + 2 * s.running.length + 3 * s.retriesRemaining + (if s.sleepArmed then 1 else 0)
 
+/-- The result (if any) that the `select_next_some` branch consumes when `e` happens in `s`. -/
+def consumedBy {α τ : Type} (s : St α τ) : Event α → Option (Res α)
+  | .complete i (some r) => if s.returned.isNone && s.running.contains i then some r else none
+  | _ => none
+
 /-- The results consumed by the `select_next_some` branch, in schedule order. -/
 def consumed {α τ : Type} (s : St α τ) : List (Event α) → List (Res α)
   | [] => []
-  | e :: es =>
-    (match e with
-      | .complete _ (some r) => if coreEnabled s e then [r] else []
-      | _ => []) ++ consumed (step s e) es
+  | e :: es => (consumedBy s e).toList ++ consumed (step s e) es
 
 end ScyllaVerif.Speculative
